@@ -1,0 +1,24 @@
+//go:build verif
+
+package gift
+
+// Contracts for the deductive checker in /verif (comment-only; compiled only under the verif tag).
+// The three generic constructions are exactly the compositions they are documented as, for every key type.
+
+// Enc(m; r) = Representative(m) * IdentityNoise(r)
+//@ func Encrypt
+//@   property C16
+//@   ensures err == nil ==> res(key.Representative(message), 1) == nil && res(key.IdentityNoise(nonce), 1) == nil
+//@   ensures err == nil ==> result == res(key.CiphertextOp(res(key.Representative(message), 0), res(key.IdentityNoise(nonce), 0)), 0)
+
+// ReRandomise(c; r) = c * IdentityNoise(r)
+//@ func ReRandomise
+//@   property C16
+//@   ensures err == nil ==> res(key.IdentityNoise(nonce), 1) == nil
+//@   ensures err == nil ==> result == res(key.CiphertextOp(ciphertext, res(key.IdentityNoise(nonce), 0)), 0)
+
+// Shift(c; d) = c * Representative(d)
+//@ func Shift
+//@   property C16
+//@   ensures err == nil ==> res(key.Representative(delta), 1) == nil
+//@   ensures err == nil ==> result == res(key.CiphertextOp(ciphertext, res(key.Representative(delta), 0)), 0)
